@@ -688,7 +688,7 @@ Proof.
         - intros x. apply tw_of_set_todo.
         - intros x. rewrite Ha. rewrite !holds_main_only by hmo. tauto.
         - split; cbn; auto. rewrite tw_of_set_todo. auto. }
-      destruct ac as [| | | |b now|u]; cbn [fst snd].
+      destruct ac as [| | | |b now|u|v]; cbn [fst snd].
       * apply Hst. unfold ret_ok; tauto.
       * apply Hst. unfold ret_ok; tauto.
       * apply Hst. unfold ret_ok; tauto.
@@ -708,6 +708,7 @@ Proof.
         -- intros x. apply tw_of_set_todo.
         -- intros x. rewrite Ha. rewrite !holds_main_only by hmo. tauto.
         -- split; cbn; auto. rewrite tw_of_set_todo. auto.
+      * apply Hst. unfold ret_ok; tauto.
     + (* helper: set_active_state *)
       assert (Hh : forall gg s', (forall x, tw_of gg x = tw_of g x) -> ntasks gg = ntasks g -> pend gg = pend g ->
                  (s' = SNone \/ s' = SLoad u) ->
@@ -813,7 +814,7 @@ Proof.
     assert (Hskip : forall r, SInv g (upd ls a (XRun r SNone))).
     { intros r. apply inv_frame with (wf := tw_of g); auto; try (split; exact I).
       intros x. rewrite Ha. split; intros H; hno H. }
-    destruct acts as [|[| | | |b now|u] r]; cbn [fst snd]; auto.
+    destruct acts as [|[| | | |b now|u|v] r]; cbn [fst snd]; auto.
     + apply (spawn_inv g ls a (XRun r SNone) (UserBody b) now g (oh o)); auto; try (intros; split; exact I).
       intros x. rewrite Ha. split; intros H; hno H.
     + apply inv_frame with (wf := tw_of g); auto; try (split; exact I).
@@ -1063,11 +1064,12 @@ Proof.
            eapply LogInv_same; [apply E; destruct Hpc as [_ Hs]; exact Hs | exact HL] end.
     unfold run_act. destruct (todo (tasks g t)) as [[|ac r]|u prev|u]; cbn [fst]; [exact HL| | |].
     + assert (HL1 : lsame g (set_todo g t (UserBody r))) by lsm.
-      destruct ac as [| | | |b now|u]; cbn [fst].
+      destruct ac as [| | | |b now|u|v]; cbn [fst].
       1-3: eapply LogInv_same; [|exact HL]; unfold self_ref, rc_inc; lsm.
       * eapply LogInv_same; [|exact HL]. lsm.
       * apply LogInv_spawn with (g := g); [exact HL1 | exact HL].
       * eapply LogInv_same; [|exact HL]. lsm.
+      * eapply LogInv_same; [|exact HL]; unfold self_ref, rc_inc; lsm.
     + destruct (sst_beq (st (tw_of g u)) (st prev) && negb (word_eqb (tw_of g u) prev)); cbn [fst];
         (eapply LogInv_same; [|exact HL]); lsm.
     + eapply LogInv_same; [|exact HL]. lsm.
@@ -1096,7 +1098,7 @@ Proof.
            assert (E := sub_step_lsame gg s (ntasks gg));
            destruct (sub_step gg s) as [g' s']; cbn [fst] in *;
            eapply LogInv_same; [apply E; destruct Hpc as [_ Hs]; exact Hs | exact HL] end.
-    destruct acts as [|[| | | |b now|u] r]; cbn [fst]; try exact HL.
+    destruct acts as [|[| | | |b now|u|v] r]; cbn [fst]; try exact HL.
     apply LogInv_spawn with (g := g); [lsm | exact HL].
 Qed.
 
@@ -1123,10 +1125,10 @@ Qed.
 Definition o_pop0 : oracle := {| oi := 0; ob := true; oh := 0 |}.
 Definition o_conv0 : oracle := {| oi := 0; ob := false; oh := 0 |}.
 
-Lemma stuck_pcs g ls : stuck (g, ls) -> forall a, ls a = WTop \/ ls a = XRun [] SNone.
+Lemma stuck_pc a g l : tstep o_pop0 a g l = (g, l) -> l = WTop \/ l = XRun [] SNone.
 Proof.
-  intros Hst a. specialize (Hst a o_pop0). cbn [fst snd] in Hst.
-  destruct (ls a) as [|t|t w0|t orig s|t orig ret|t orig ret cur|t|t prev|t|t|acts s] eqn:Ha; auto;
+  intros Hst.
+  destruct l as [|t|t w0|t orig s|t orig ret|t orig ret cur|t|t prev|t|t|acts s]; auto;
     [exfalso|exfalso|exfalso|exfalso|exfalso|exfalso|exfalso|exfalso|exfalso|
      destruct acts as [|ac r]; [destruct s; [auto|exfalso..]|exfalso]]; cbn [tstep] in Hst.
   - inversion Hst.
@@ -1136,7 +1138,7 @@ Proof.
            assert (Hp := sub_step_progress gg s ltac:(discriminate));
            destruct (sub_step gg s) as [g' s']; cbn in Hp; inversion Hst; congruence end.
     unfold run_act in Hst. destruct (todo (tasks g t)) as [[|ac r]|u prev|u] eqn:Et; [inversion Hst| | |].
-    + destruct ac as [| | | |b now|u]; try (inversion Hst; fail).
+    + destruct ac as [| | | |b now|u|v]; try (inversion Hst; fail).
       * inversion Hst as [[Hg]]. apply (f_equal (fun gg => todo (tasks gg t))) in Hg.
         unfold set_reg, set_todo, set_task in Hg. cbn in Hg. rewrite !upd_same in Hg. cbn in Hg.
         rewrite Et in Hg. inversion Hg as [Hr]. symmetry in Hr. eapply list_neq_cons; eauto.
@@ -1179,6 +1181,8 @@ Proof.
     destruct ac; apply (f_equal snd) in Hst; cbn in Hst; inversion Hst as [Hr];
       exact (list_neq_cons _ _ Hr).
 Qed.
+Lemma stuck_pcs g ls : stuck (g, ls) -> forall a, ls a = WTop \/ ls a = XRun [] SNone.
+Proof. intros Hst a. apply (stuck_pc a g). exact (Hst a o_pop0). Qed.
 
 (* a worker stays a worker, an external thread stays external *)
 Definition is_ext (l : pc) : bool := match l with XRun _ _ => true | _ => false end.
